@@ -385,6 +385,18 @@ fn boundaries(w: &mut World, rng: &mut Rng) {
     }
 }
 
+fn restart_ev(w: &mut World) {
+    // dump, process exit, load: sessions are gone
+    w.store.dump_to_dir(w.dir.path()).expect("dump");
+    let st = PeerStore::load_from_dir_or_default(w.dir.path());
+    w.store = st;
+    let white: Vec<Multiaddr> = w.u.addrs.iter().enumerate().filter(|(i, _)| w.u.white.contains(&w.u.peer_of[*i])).map(|(_, a)| a.clone()).collect();
+    w.reg = PeerRegistry::new(w.u.max_in, w.u.max_out, w.u.white_only, white, w.u.no_br);
+    w.conn_seq.clear();
+    w.ages.clear();
+    w.emit(json!({"ev": "Restart"}));
+}
+
 fn history(seed: u64, h: u64, steps: u64) {
     let mut rng = Rng::new(seed.wrapping_mul(1000003).wrapping_add(h));
     let u = make_universe(&mut rng, h);
@@ -438,6 +450,18 @@ fn history(seed: u64, h: u64, steps: u64) {
     }
     if h % 4 == 0 {
         boundaries(&mut w, &mut rng);
+    }
+    // outbound sessions beyond max_outbound become block-relay-only (two slots) and their addresses anchors: open them, then
+    // dump / load - both anchors must survive
+    if h % 4 == 3 && !w.u.no_br && !w.u.white_only {
+        let mut a = 1;
+        while a <= n && w.reg.peers().values().filter(|p| p.is_block_relay_only()).count() < 2 {
+            w.next_sid += 1;
+            let sid = SessionId::new(w.next_sid);
+            accept_ev(&mut w, &mut rng, a, false, sid);
+            a += 1;
+        }
+        restart_ev(&mut w);
     }
     // one history in twelve is a ban storm: more than 1024 insertions into one BanList, short bans, ticks in between:
     // the periodic sweep of expired entries happens (and must never drop a live ban)
@@ -573,15 +597,7 @@ fn history(seed: u64, h: u64, steps: u64) {
             let ids: Vec<u64> = res.iter().map(|i| w.aid(&i.addr)).collect();
             w.emit(json!({"ev": "Fetch", "kind": kind, "req": flag_bits(req.bits()), "n": cnt, "res": ids}));
         } else if sids.is_empty() || rng.chance(1, 3) {
-            // dump, process exit, load: sessions are gone
-            w.store.dump_to_dir(w.dir.path()).expect("dump");
-            let st = PeerStore::load_from_dir_or_default(w.dir.path());
-            w.store = st;
-            let white: Vec<Multiaddr> = w.u.addrs.iter().enumerate().filter(|(i, _)| w.u.white.contains(&w.u.peer_of[*i])).map(|(_, a)| a.clone()).collect();
-            w.reg = PeerRegistry::new(w.u.max_in, w.u.max_out, w.u.white_only, white, w.u.no_br);
-            w.conn_seq.clear();
-            w.ages.clear();
-            w.emit(json!({"ev": "Restart"}));
+            restart_ev(&mut w);
         }
     }
 }
